@@ -1,3 +1,2 @@
--- This module serves as the root of the `BertE` library.
--- Import modules here that should be built as part of the library.
-import BertE.Basic
+-- Root of the library: every property file (and through them the model, lemmas and generated tables).
+import BertE.Props.C06
